@@ -34,6 +34,10 @@ def oracle(case, res):
             sc.CASE_TIMEOUT, sc.block_text(case).replace('\n', ' | ')), 'replay': rep}]
     s = res['solver']
     T = s.Parser.MaxTime
+    # the horizon that was STATED: the one assigned to the solver before parsing, else the block's MaxTime line
+    stated = case['solver_maxtime'] if case.get('solver_maxtime') is not None else case.get('maxtime')
+    if isinstance(stated, int) and stated >= 0 and case['kind'] != 'weird':
+        T = stated
     ts = res['ts_raw']
     txt = sc.block_text(case).replace('\n', ' | ')
     rej = case.get('info', {}).get('reject')
@@ -109,7 +113,15 @@ def gen_model_case(rng):
         vals = [float(int(v)) for v in vals]
     ic = rng.choice([None, None, round(rng.uniform(1, 80), 1)])
     how_T = rng.choice(['model', 'solver_before_parse'])
-    return {'T': T, 'vals': vals, 'form': form, 'ic': ic, 'how_T': how_T, 'via_model': rng.random() < 0.5}
+    m = {'T': T, 'vals': vals, 'form': form, 'ic': ic, 'how_T': how_T, 'via_model': rng.random() < 0.5}
+    # initial conditions on an endogenous stock, a constant parameter, a flow, a lagged variable; zero included
+    # (a stated zero is still a stated initial condition: the constant 0.6 must read 0.0 at k=0)
+    m['ic_var'] = rng.choice(['F', 'F', 'AlphaIncome', 'AlphaFin', 'AfterTax', 'DEM_GOOD', 'LAG_F'])
+    if ic is not None and rng.random() < 0.4:
+        m['ic'] = 0.0
+    if how_T == 'solver_before_parse' and form != 'short' and rng.random() < 0.3:
+        m['solver_T'] = rng.choice([0, 0, 1, T])      # a horizon on the solver that differs from the model's
+    return m
 
 
 def oracle_model(m):
@@ -139,8 +151,9 @@ def oracle_model(m):
         mod.AddExogenous('GOV', 'DEM_GOOD', spec)
     else:
         gov.SetExogenous('DEM_GOOD', spec)
+    ic_var = m.get('ic_var', 'F')
     if m['ic'] is not None:
-        mod.AddInitialCondition('HH', 'F', m['ic'])
+        mod.AddInitialCondition('HH', ic_var, m['ic'])
     mod.MaxTime = T
     s = None
     try:
@@ -150,9 +163,11 @@ def oracle_model(m):
             err = None
         else:
             # the horizon set on the solver directly (before the block is parsed)
-            mod.MaxTime = 1
-            eqs = mod_final_equations(mod)
+            mod.MaxTime = 1 if m.get('solver_T') is None else T
+            eqs = mod_final_equations(mod, keep_maxtime=m.get('solver_T') is not None)
             s = EquationSolver()
+            if m.get('solver_T') is not None:
+                T = m['solver_T']
             s.MaxTime = T
             s.ParseString(eqs)
             s.SolveEquation()
@@ -175,8 +190,9 @@ def oracle_model(m):
     got = [float(v) for v in ts['GOV__DEM_GOOD']]
     if got != [float(v) for v in vals[:T + 1]]:
         fails.append({'key': 'model:exo-verbatim', 'what': 'GOV__DEM_GOOD = %r, supplied %r' % (got, vals[:T + 1]), 'replay': rep})
-    if m['ic'] is not None and float(ts['HH__F'][0]) != float(m['ic']):
-        fails.append({'key': 'model:ic', 'what': 'HH__F(0) = %r, initial condition %r' % (ts['HH__F'][0], m['ic']), 'replay': rep})
+    if m['ic'] is not None and float(ts['HH__' + ic_var][0]) != float(m['ic']):
+        fails.append({'key': 'model:ic', 'what': 'HH__%s(0) = %r, initial condition %r' % (ic_var, ts['HH__' + ic_var][0], m['ic']),
+                      'replay': rep})
     if [float(v) for v in ts['k']] != [float(i) for i in range(T + 1)] or [float(v) for v in ts['t']] != [float(i) for i in range(T + 1)]:
         fails.append({'key': 'model:time', 'what': 'k=%r t=%r' % (ts['k'], ts['t']), 'replay': rep})
     for k in range(1, T + 1):
@@ -186,11 +202,11 @@ def oracle_model(m):
     return fails
 
 
-def mod_final_equations(mod):
+def mod_final_equations(mod, keep_maxtime=False):
     """the equation block a Model hands to its solver (public attribute FinalEquations after main() with a
     one-period horizon); the MaxTime line is dropped so that the solver's own horizon decides."""
     mod.main()
-    lines = [l for l in mod.FinalEquations.split('\n') if not l.strip().startswith('MaxTime')]
+    lines = [l for l in mod.FinalEquations.split('\n') if keep_maxtime or not l.strip().startswith('MaxTime')]
     return '\n'.join(lines)
 
 
